@@ -127,7 +127,7 @@ class AAssociatePDUBase(object):
         """
         def iter_items():
             item_type = _next_type(stream)
-            while item_type:
+            while item_type is not None:  # type 0 is a type, not the end of data
                 if item_type == 0x10:
                     yield ApplicationContextItem.decode(stream)
                 elif item_type == 0x20:
@@ -894,7 +894,7 @@ class UserInformationItem(object):
         :yield: User Information sub-item
         """
         item_type = _next_type(stream)
-        while item_type:
+        while item_type is not None:  # type 0 is a type, not the end of data
             try:
                 factory = SUB_ITEM_TYPES.get(item_type, userdataitems.GenericUserDataSubItem)
                 yield factory.decode(stream)
